@@ -93,7 +93,7 @@ def c07(ctx):
                 "arrival at the goal within 8 (velocity) or 16 (position) f32 epsilons of the magnitudes involved. "
                 "Non-trivial = an accepted move.")
     ctx.assumptions += ["exact family: durations are whole ticks, limits and speeds small dyadic rationals, agreement within 2^-16 of the largest "
-                        "magnitude; on arbitrary arguments the integral relation between position and velocity is checked only through "
-                        "continuity and arrival at the end position, and the tolerance factors (8 / 16 epsilon of max(|x|, v t3, a t3^2)) are the "
+                        "magnitude; on arbitrary arguments the integral relation is checked piecewise (between two queried instants of one "
+                        "piece the position advances by the mean of the two velocities times the interval), and the tolerance factors (8 / 16 epsilon of max(|x|, v t3, a t3^2)) are the "
                         "check's reading of 'a rounding tolerance proportional to f32 epsilon times the magnitudes involved'"]
     ctx.exhaustive = False
